@@ -8,6 +8,14 @@ COMMON_TB = [
 ]
 
 PROPS = {
+    "C11": {
+        "proof_modules": [],
+        "theorems": [],
+        "suites": ["mapops"],
+        "rule": "tbd",
+        "trusted_base": COMMON_TB,
+        "assumptions": [],
+    },
     "C12": {
         "proof_modules": ["GrolProofs.Props.C12"],
         "theorems": ["Grol.Obj.C12.no_panic", "Grol.Obj.C12.refl", "Grol.Obj.C12.antisymm", "Grol.Obj.C12.total", "Grol.Obj.C12.trans",
